@@ -30,6 +30,14 @@ Finding of this check on the pinned tree, since repaired in /repo (c2100c2; `fix
       and field:class-in events) and CHAINS (alter_class on the first envelope).  The TTL, the other header field
       among the TSIG variables, IS digested from the wire (mutant tsig-ttl-not-digested = seeded change C11-2).
 
+TV srv  `tsig record server`: a real dns.Server with a key table on an in-memory TCP listener (TsigSecret) and an in-memory
+        datagram socket (TsigProvider); 2-5 transactions back to back on every TCP connection, datagrams one by one;
+        requests signed (5 algorithms) / signed with a wrong secret / unsigned; handlers answering with one message, with
+        2-4 messages (w.TsigTimersOnly(true) after each) or with Transfer.Out -> Trace_Tsig restarts the session at every
+        request -> `tsig judge`: TsigStatus seen by the handler = the specification's verdict on the request; every response's
+        MAC = HMAC over the specification's digest input (first response of every transaction: that request's MAC + full
+        variables; later ones: previous MAC + timers only).
+
 Mutants (checks/mutants/C11, each must give exit 1):
   digest-omits-error-otherlen   GEN (generate:mac-is-not-hmac-of-rfc-digest), TV (base event: accepts-invalid:mac)
   original-id-not-restored      GEN (vectors with original id # id), TV
@@ -40,6 +48,8 @@ Mutants (checks/mutants/C11, each must give exit 1):
   timers-only-ignored           GEN (timers-only vectors), CHAINS stay green (self-consistent) -- GEN is what bites
   tsig-ttl-not-digested         TV (bit events on the 32 TTL bits, field:ttl-1), CHAINS (alter_ttl on the first envelope)
   tsig-class-not-digested       (reverts fix c2100c2) TV (16 class bits, field:class-in), CHAINS (alter_class)
+  server-timersonly-not-reset   (seeded change C11-6 = C15-3) TV srv (tsig/verify:accepts-invalid:mac:server-out on the first
+                                response of a transaction that follows a multi-message answer on the same TCP connection)
 """
 import os, json, threading
 import vp
@@ -113,6 +123,15 @@ def tv(ctx, binp, n, nproc):
     vp.parallel([lambda k=k: one(k) for k in range(nproc)], maxpar=PAR)
 
 
+def tv_server(ctx, binp, n, nproc):
+    def one(k):
+        out = os.path.join(ctx.out, "server-%d.ndjson" % k)
+        s = ctx.run_json(binp, ["record", "server", out, str(n)], env={"VERIF_SEED": str(ctx.seed * 1000 + 300 + k)})
+        vp.absorb(ctx, s, traces=False)
+        judge_trace(ctx, binp, out)
+    vp.parallel([lambda k=k: one(k) for k in range(nproc)], maxpar=PAR)
+
+
 def run(ctx):
     safe(ctx)
     binp = ctx.build("tsig")
@@ -121,12 +140,14 @@ def run(ctx):
             lambda: chains(ctx, binp, 4, 2),
             lambda: gen(ctx, binp, 8, [ctx.seed % 8, (ctx.seed + 3) % 8]),
             lambda: tv(ctx, binp, 7, 2),
+            lambda: tv_server(ctx, binp, 60, 1),
         ])
     else:
         vp.parallel([
             lambda: chains(ctx, binp, 5, 2),
             lambda: gen(ctx, binp, 8, range(8)),
             lambda: tv(ctx, binp, 60, 16),
+            lambda: tv_server(ctx, binp, 1500, 4),
         ])
     ctx.assumptions += [
         "HMAC values are not decided by the specification: crypto/hmac is applied to the specification's digest input",
